@@ -60,6 +60,7 @@ class DispatchModel:
 
     def __init__(self, vals, slots, event_names=(), tok=None):
         self.vals = dict(vals)
+        self.own = set()                    # names the instance has set itself (the others follow the class default)
         self.subvals = None                 # values of a subclass that has its own copies of the Parameters (class slice with subclass)
         self.slots = dict(slots)            # (pname, slot) -> object
         self.event_names = set(event_names)
@@ -360,7 +361,7 @@ class DispatchModel:
         return [
             sorted((k, repr(tok(v))) for k, v in self.vals.items()) + (sorted(('sub.' + k, repr(tok(v))) for k, v in self.subvals.items()) if self.subvals else []),
             sorted((repr(k), repr(tok(v))) for k, v in self.slots.items()),
-            [(w['id'], w['active']) for w in self.W],
+            [(w['id'], w['active']) for w in self.W] + sorted(self.own),
             [(f['kind'], f.get('mark'), [(k, repr(tok(v))) for k, v in f.get('restore', [])]) for f in self.ctx],
             [(e['w']['id'], e['name'], e['what'], repr(tok(e['new'])), e['trg'], e['q']) for e in self.pending],
         ]
